@@ -84,12 +84,40 @@ def gen_cases(rng, tier):
                 ["write-fault", "write-fault-aborted-kind" if fault == W_ERR_AB else "write-fault-plain"]
 
 
+def close_readahead_fault_cases(rng, tier):
+    """a Filter request whose handler returns Ok before reaching the Data stream: Request::close itself reads ahead (writeable()),
+    and the reply to a management record sitting in the unread Stdin part is flushed from INSIDE close; that write fails with an
+    error of kind ConnectionAborted (or a plain error / a zero write): close must end the connection without writing anything more"""
+    for fault in (W_ERR_AB, W_ERR_AB, W_ERR, W_ZERO):
+        for keep in (0, 1):
+            for B in (64, 256):
+                rid = 1
+                recs = minimal_preamble(rid, 3, flags=keep) + [record(STDIN, rid, [1, 2, 3], 0), record(GETVALUES, 0, gv_body(rng), 0),
+                                                               record(STDIN, rid, [4, 5], 5), record(STDIN, rid, [], 0),
+                                                               record(DATA, rid, [9, 9], 0), record(DATA, rid, [], 0)]
+                segs = [(0, 0, flat(recs))]
+                w2, _ = C07.gen_request(rng, 2, False, B)
+                segs.append((0, 0, w2))
+                scripts = [[("ret", 0, 7)], [("readall",), ("ret", 0, 0)]]
+                ws = [fault] + [10 ** 6] * 40
+                yield conn_case(B, 1, segs, scripts, rng.choice([[], [10 ** 6] * 5, [30] * 20]), ws, rng.choice([0, 1])), \
+                    ["write-fault", "write-fault-aborted-kind" if fault == W_ERR_AB else "write-fault-plain", "close-readahead-fault"]
+
+
+_gen_cases_c12 = gen_cases
+
+
+def gen_cases(rng, tier):
+    yield from _gen_cases_c12(rng, tier)
+    yield from close_readahead_fault_cases(rng, tier)
+
+
 def nontrivial(line, tags):
     return True
 
 
 def min_classes(tier):
-    return {"eof": 2000, "read-error": 300, "write-fault": 300, "write-fault-aborted-kind": 60}
+    return {"eof": 2000, "read-error": 300, "write-fault": 300, "write-fault-aborted-kind": 60, "close-readahead-fault": 16}
 
 
 def outcome(line, out):
